@@ -878,8 +878,47 @@ func (g *gen) genPipeline(level int) *Pipeline {
 			}
 		}
 	}
+	// Wildcard bindings: a consumer stage whose inputs are exactly the
+	// outputs of an earlier (unmapped) call takes them all through `* = CALL`;
+	// now and then the pipeline returns a call's outputs through `* = CALL`.
+	wildRet := false
+	if g.pct(g.cfg.PWildcard) {
+		var cands []*Call
+		for _, c := range pl.Calls {
+			if _, outs, _, ok := g.p.Callable(c.Callee); ok && !c.Map && len(outs) > 0 {
+				cands = append(cands, c)
+			}
+		}
+		if len(cands) > 0 {
+			c := cands[g.r.Intn(len(cands))]
+			_, outs, _, _ := g.p.Callable(c.Callee)
+			if g.pct(60) {
+				w := &Stage{Name: g.upperName("WILD")}
+				for _, o := range outs {
+					w.Ins = append(w.Ins, Param{Name: o.Name, Type: o.Type})
+				}
+				w.Outs = []Param{{Name: "wy", Type: TInt}}
+				w.SrcLang, w.Src = g.cfg.SrcFor(w.Name)
+				g.p.Stages = append(g.p.Stages, w)
+				wc := &Call{Callee: w.Name, Binds: []Binding{{Id: "*", Exp: &Exp{Kind: ERefCall, Id: c.Name()}}}}
+				pl.Calls = append(pl.Calls, wc)
+				names[wc.Name()] = true
+				env = append(env, envEntry{exp: &Exp{Kind: ERefCall, Id: wc.Name(), Path: []string{"wy"}}, typ: TInt, fromCall: wc.Name()})
+			} else {
+				for _, o := range outs {
+					pl.Outs = append(pl.Outs, Param{Name: o.Name, Type: o.Type})
+					used[o.Name] = true
+				}
+				pl.Ret = append(pl.Ret, Binding{Id: "*", Exp: &Exp{Kind: ERefCall, Id: c.Name()}})
+				wildRet = true
+			}
+		}
+	}
 	xenv := g.expandEnv(env)
 	nout := 1 + g.r.Intn(g.cfg.MaxParams)
+	if wildRet {
+		nout = 0 // a wildcard return supplies every output
+	}
 	for i := 0; i < nout; i++ {
 		// Prefer returning call outputs.
 		var callOuts []envEntry
